@@ -94,6 +94,7 @@ let parse_op (s : string) : AttrTree.aop =
   let open AttrTree in
   match split_on ':' s with
   | ["S"; c; k; ty; v] -> let ty = ty_of_char ty in OSet (nat c, key_of k, ty, val_of ty v)
+  | ["SF"; c; k; ty; v; _] -> let ty = ty_of_char ty in OSet (nat c, key_of k, ty, val_of ty v)
   | ["G"; c; k] -> OGet (nat c, key_of k)
   | ["R"; c; sl; k] -> ORef (nat c, nat sl, key_of k)
   | ["SR"; c; sl2; sl; k] -> let (nf, p) = sub_of k in OSubRef (nat c, nat sl2, nat sl, nf, p)
@@ -112,6 +113,12 @@ let parse_op (s : string) : AttrTree.aop =
   | ["O"; _] -> OClearVolatile (nat "0")
   | ["O"; _; c] -> OClearVolatile (nat c)
   | _ -> failwith ("bad attr op " ^ s)
+
+let status_of_code (code : string) : AttrBase.status =
+  let open AttrBase in
+  try Stdlib.List.find (fun st -> int_of_n (status_code st) = int_of_string code)
+        [ KDUMP_OK; ERR_SYSTEM; ERR_NOTIMPL; ERR_NODATA; ERR_CORRUPT; ERR_INVALID; ERR_NOKEY; ERR_EOF; ERR_BUSY; ERR_ADDRXLAT ]
+  with Not_found -> failwith ("bad status " ^ code)
 
 let path_str (p : coq_N list list) = String.concat "." (Stdlib.List.map hex_of_bytes p)
 
@@ -150,7 +157,11 @@ let run_ops (ops : (string * AttrTree.aop) list) : string list =
     st := snd (AttrTree.astep (AttrTree.OClone (nat_of_int 0, false)) !st)
   done;
   Stdlib.List.map (fun (src, o) ->
-    let (r, s') = AttrTree.astep o !st in
+    let (r, s') = match o, split_on ':' src with
+      | AttrTree.OSet (c, k, ty, v), ["SF"; _; _; _; _; code] ->
+          (* a set whose post-set hook fails with status <code> *)
+          AttrTree.astep_hookfail (status_of_code code) c k ty v !st
+      | _ -> AttrTree.astep o !st in
     st := s';
     (match o, split_on ':' src with
      | AttrTree.OClearVolatile c, ("O" :: idx :: _) ->
@@ -207,7 +218,7 @@ let volatile_key (p : string) =
   (* values that differ from process to process *)
   let pre s = String.length p >= String.length s && String.sub p 0 (String.length s) = s in
   let hx s = String.concat "" (Stdlib.List.map (fun c -> Printf.sprintf "%02x" (Char.code c)) (Stdlib.List.init (String.length s) (String.get s))) in
-  pre (hx "cache") || pre (hx "cpu") || pre (hx "file" ^ "." ^ hx "fd") || pre (hx "file" ^ "." ^ hx "set")
+  pre (hx "cache") || pre (hx "file" ^ "." ^ hx "fd") || pre (hx "file" ^ "." ^ hx "set")
   || pre (hx "file" ^ "." ^ hx "mmap_cache") || pre (hx "file" ^ "." ^ hx "read_cache")
   || pre (hx "file" ^ "." ^ hx "mmap_policy") || pre (hx "file" ^ "." ^ hx "pagemap")
   || pre (hx "memory" ^ "." ^ hx "pagemap")
@@ -260,6 +271,15 @@ let spec_history (ops : string list) (outs : string list) : string =
         (match resolve c (key_of k) with
          | None -> if out = "0" then bad "%s: set of a key that does not exist succeeded" op
          | Some a -> expect op (show_status (check_set a ty (val_of ty v))) out)
+    | ["SF"; c; k; ty; v; code] ->
+        (* a set whose post-set hook fails: the dictionary of the set, the status of the hook *)
+        let c = int_of_string c and ty = ty_of_char ty in
+        (match resolve c (key_of k) with
+         | None -> if out = "0" then bad "%s: set of a key that does not exist succeeded" op
+         | Some (vw, p) ->
+             let (st, l') = AttrSpec.dl_check_set_hookfail (status_of_code code) p ty (val_of ty v) !(dict vw) in
+             dict vw := l';
+             expect op (show_status st) out)
     | ["G"; c; k] ->
         (match resolve (int_of_string c) (key_of k) with
          | None -> if String.length out > 1 && String.sub out 0 2 = "0:" then bad "%s: a value for a key that does not exist" op
